@@ -1,8 +1,12 @@
-(** Model of MannWhitneyUTest (internal/stats/utest.go) after the three repairs
+(** Model of MannWhitneyUTest (internal/stats/utest.go) after the four repairs
     that keep the existing tests unedited:
       hooks/fix_c11_udist_k2.diff            floor in the K==2 base case (Model/UDistImpl.v)
       hooks/fix_c11_utest_greater.diff       Greater:  1 - CDF(U1 - 0.5)
       hooks/fix_c11_utest_twosided_cap.diff  Differs:  min(1, 2*CDF(min(U1,U2)))
+      hooks/fix_c11_utest_samples_equal_large.diff
+                                             len(T) == 1 => ErrSamplesEqual BEFORE the
+                                             exact/approximate switch (the sigma == 0 test
+                                             of the approximate path stays in the code)
     NOT repaired (known finding C11_twosided_asymmetric_ties): Differs still
     doubles the LOWER tail at min(U1,U2) and short-cuts U1 == U2 to 1, which is
     twice the smaller tail only when the tied distribution is symmetric.
@@ -142,6 +146,31 @@ Inductive uresult :=
 | ROracleMiss.
 
 Definition mwu (x1 x2 : list Z) (a : alt) : uresult :=
+  match x1, x2 with
+  | [], _ | _, [] => RErrSampleSize
+  | _, _ =>
+      let s := ustat_of x1 x2 in
+      match us_T s with
+      | [_] => RErrSamplesEqual                 (* len(T) == 1: all values are equal *)
+      | _ =>
+          if use_exact s then RExact (us_twoU1 s) (exact_p s a)
+          else if b64_eq (sigma_U s) b64_zero then RErrSamplesEqual
+          else match approx_p s a with
+               | Some p => RApprox (us_twoU1 s) p
+               | None => ROracleMiss
+               end
+      end
+  end.
+
+(** closed form of [mwu] on two constant samples of the same value with n1 and n2
+    elements (Proofs/UTest.v, mwu_const_correct); the correspondence evaluator uses it
+    for the large all-equal cases, which ship the sizes instead of the values *)
+Definition mwu_const (n1 n2 : Z) : uresult :=
+  if (n1 <=? 0) || (n2 <=? 0) then RErrSampleSize else RErrSamplesEqual.
+
+(** the function before hooks/fix_c11_utest_samples_equal_large.diff: the single-run test
+    only in the exact regime (for the _refuted theorems) *)
+Definition mwu_old (x1 x2 : list Z) (a : alt) : uresult :=
   match x1, x2 with
   | [], _ | _, [] => RErrSampleSize
   | _, _ =>
